@@ -188,13 +188,14 @@ func Execute(t *testing.T, sc *Scenario, dec *Decider, obs ...Observer) (*RunRes
 			_ = os.RemoveAll(filepath.Join(BaseDir, "cwd", e.Name()))
 		}
 	}
+	// (a program may change the working directory itself: CHDIR)
+	defer func() { _ = os.Chdir(filepath.Join(BaseDir, "cwd")) }()
 	if sc.Knobs.RelRepo {
 		// simulated runs are executed one after the other, so the working
 		// directory of the test process can stand for the one of the csvq process
 		if err := os.Chdir(dir); err != nil {
 			panic(err)
 		}
-		defer func() { _ = os.Chdir(filepath.Join(BaseDir, "cwd")) }()
 	}
 	startIDs := statFiles(dir, sc.Files)
 	gm := query.GetGoroutineManager()
